@@ -96,6 +96,7 @@ type incarnation struct {
 	curPre  specalloc.Holdings
 	lapsed        map[string]bool
 	droppedDelete map[string]bool
+	gateOpened    bool // the initial-load gate of this incarnation has been open at some point
 }
 
 type world struct {
@@ -120,6 +121,7 @@ type world struct {
 	steps       int
 	writes      int // status writes attempted (all incarnations)
 	writesBySvc map[string]int
+	appliedBySvc map[string]int // status writes the API server accepted
 	stateHashes []uint64
 	nontrivial  bool
 	// C06 bookkeeping
@@ -234,6 +236,9 @@ func (c simSvcClient) UpdateStatus(svc *v1.Service) error {
 		w.logf("  status write of %s rejected: %v", key, err)
 		w.noteFailedRelease(key, before, svc)
 		return err
+	}
+	if w.appliedBySvc != nil {
+		w.appliedBySvc[key]++
 	}
 	w.logf("  status write %s -> %v ann=%q", key, ingress(svc), svc.Annotations[specalloc.AnnAllocatedFrom])
 	w.applyEager()
@@ -433,9 +438,14 @@ func (w *world) workerStep(inc *incarnation, wk *worker) {
 	w.steps++
 	w.sched.add("step:" + wk.name + ":" + key)
 	w.logf("%s worker: reconcile %s", wk.name, key)
+	if inc.svcRec.VerifInitialLoadPerformed() {
+		inc.gateOpened = true
+	}
 	if wk.name == "service" && key != reloadKey && !inc.svcRec.VerifInitialLoadPerformed() {
 		w.stat("probe.event-dropped-before-initial-load")
-		if inc.cache.Objs["Service"][key] == nil && len(inc.ctrl.ips.VerifHoldings()[key].IPs) > 0 {
+		if inc.cache.Objs["Service"][key] == nil && len(inc.ctrl.ips.VerifHoldings()[key].IPs) > 0 && !inc.gateOpened {
+			// (the listed finding is about the gate that has never been open in this incarnation;
+			// a delete dropped by a gate that was open before is something else)
 			inc.droppedDelete[key] = true
 			w.stat("probe.delete-dropped-while-holding")
 		}
